@@ -108,6 +108,30 @@ McPairs ==
     {<<[NoPolicy EXCEPT !.has = h, !.banner = "B", !.comp = <<"none">>], [NoPeer EXCEPT !.banner = b, !.comp = c]>> :
         h \in SUBSET {"banner", "comp"}, b \in {"B", "C"}, c \in {<<"none">>, <<"zlib">>, <<"none", "zlib">>}}
 
+\* Fields in combination (the rule treats fields independently - the code evaluates them one after the other, folding one verdict and
+\* walking each size map in sorted order, so interactions live between fields and between entries of one map): every choice of
+\* {not in the policy, in the policy and not offered by the peer, equal, larger, smaller} for two host-key types and two
+\* group-exchange algorithms, with and without larger keys allowed, next to list fields that match or do not.
+SizeChoice == {"unlisted", "notoffered", "equal", "larger", "smaller"}
+PolEntry(c, w) == c # "unlisted"
+PeerVal(c, w) == CASE c = "equal" -> w [] c = "larger" -> w + 1024 [] c = "smaller" -> w - 1024 [] OTHER -> 0
+HkTypes2 == {"rsa", "rsb"}         \* (two host-key types that sort in this order)
+DhTypes2 == {"gex1", "gex256"}
+ListMood == {"allmatch", "key", "mac", "banner", "kex+enc"}
+ComboPairs ==
+    {<<[NoPolicy EXCEPT !.has = {"banner", "comp", "key", "kex", "enc", "mac"}, !.banner = "B", !.comp = <<"none">>,
+                        !.key = <<"a1", "b2">>, !.kex = <<"a1">>, !.enc = <<"b2", "c3">>, !.mac = <<"c3">>, !.larger = lg,
+                        !.hks = [t \in {t \in HkTypes2 : PolEntry(IF t = "rsa" THEN h1 ELSE h2, 0)} |-> HK(3072, "", 0)],
+                        !.dhs = [a \in {a \in DhTypes2 : PolEntry(IF a = "gex1" THEN d1 ELSE d2, 0)} |-> 3072]],
+       [NoPeer EXCEPT !.banner = IF m = "banner" THEN "C" ELSE "B", !.comp = <<"none">>,
+                      !.key = IF m = "key" THEN <<"a1">> ELSE <<"a1", "b2">>, !.kex = IF m = "kex+enc" THEN <<"a1", "b2">> ELSE <<"a1">>,
+                      !.enc = IF m = "kex+enc" THEN <<"c3", "b2">> ELSE <<"b2", "c3">>, !.mac = IF m = "mac" THEN <<"a1">> ELSE <<"c3">>,
+                      !.hks = [t \in {t \in HkTypes2 : (IF t = "rsa" THEN h1 ELSE h2) \in {"equal", "larger", "smaller"}} |->
+                                 HK(PeerVal(IF t = "rsa" THEN h1 ELSE h2, 3072), "", 0)],
+                      !.dhs = [a \in {a \in DhTypes2 : (IF a = "gex1" THEN d1 ELSE d2) \in {"equal", "larger", "smaller"}} |->
+                                 PeerVal(IF a = "gex1" THEN d1 ELSE d2, 3072)]]>> :
+        h1 \in SizeChoice, h2 \in SizeChoice, d1 \in SizeChoice, d2 \in SizeChoice, lg \in BOOLEAN, m \in ListMood}
+
 AsSet(x) == {x[i] : i \in 1..Len(x)}
 FixMap(m) == m
 Input == IF Mode = "oracle" THEN JsonDeserialize(IOEnv.VERIF_CASES) ELSE <<>>
@@ -124,7 +148,7 @@ Init ==
                \* a case either carries its policy, or a `base` peer from which the policy is made (C05)
                /\ pol = IF "policy" \in DOMAIN Input[k] THEN PolicyOf(Input[k].policy) ELSE Load(Create(Input[k].base))
                /\ peer = Input[k].peer /\ id = Input[k].id
-       ELSE \E pr \in McPairs : pol = pr[1] /\ peer = pr[2] /\ id = 0
+       ELSE \E pr \in (IF Mode = "combo" THEN ComboPairs ELSE McPairs) : pol = pr[1] /\ peer = pr[2] /\ id = 0
 
 Evaluate ==
     /\ pc = "start" /\ pc' = "done"
@@ -164,5 +188,5 @@ Drift == (Done /\ Mode = "oracle") => \A k \in 1..Len(Input) :
         IF Input[k].drift = "" THEN errs = {} ELSE \E f \in errs : StartsWith(f, Input[k].drift)
 
 Emit == Done => PrintT(ToJson([id |-> id, errors |-> errs, passed |-> (errs = {}),
-                              case |-> IF Mode = "mc" THEN [policy |-> pol, peer |-> peer] ELSE <<>>]))
+                              case |-> IF Mode \in {"mc", "combo"} THEN [policy |-> pol, peer |-> peer] ELSE <<>>]))
 =============================================================================
